@@ -276,6 +276,10 @@ def execute_spec(prop_mod, spec):
         cfg, ops = prop_mod.generate(spec["seed"], spec.get("tier", "quick"))
         spec["cfg"], spec["ops"] = cfg, ops
     viol = None
+    # the simulator owns numpy's global RandomState from the first instruction of the run
+    # (a fresh process seeds it from OS entropy, which would leak into unseeded library calls)
+    import numpy as _np
+    _np.random.seed((spec.get("seed") or 0) % (2 ** 32))
     try:
         prop_mod.execute(spec, rec, known)
     except Violation as v:
